@@ -40,17 +40,31 @@ type c07Setup struct {
 	idpSignerKind string // "rsa" | "opaque-rsa" | "ecdsa" (with idpSigner)
 	idsShape      string // where the answered request id stands among the outstanding ones
 	initiated     bool
-	idpKey        int64  // idp.Key's key pair (0 = key 1)
-	idpEntity     string // the IdP's entity ID / metadata URL ("" = the usual one)
-	spInterm      bool   // sp.Intermediates set
-	xmlEntry      bool   // SP entry point ParseXMLResponse instead of ParseResponse
-	certWS        string // how certificate texts are laid out in both metadata documents ("" = single line)
+	idpKey        int64         // idp.Key's key pair (0 = key 1)
+	idpEntity     string        // the IdP's entity ID / metadata URL ("" = the usual one)
+	idpInterm     int           // number of certificates in idp.Intermediates (fixture certificates as stand-ins)
+	delay         time.Duration // configured MaxIssueDelay (0 = the default, 90 s)
+	spLate        time.Duration // the SP's clock when it reads the response, after the IdP's clock (IssueInstant)
+	spInterm      bool          // sp.Intermediates set
+	xmlEntry      bool          // SP entry point ParseXMLResponse instead of ParseResponse
+	certWS        string        // how certificate texts are laid out in both metadata documents ("" = single line)
 }
 
 func (s c07Setup) key() map[string]string {
 	return map[string]string{"entity_id_set": fmt.Sprint(s.entityIDSet), "sp_key": s.spKey, "encryption": fmt.Sprint(s.cert), "request_binding": s.binding,
-		"signed_request": fmt.Sprint(s.signed), "idp_method": s.idpMethod, "idp_signer": fmt.Sprint(s.idpSigner) + ":" + s.idpSignerKind, "outstanding_ids": s.idsShape, "idp_initiated": fmt.Sprint(s.initiated), "cert_text_layout": s.certWS, "sp_intermediates": fmt.Sprint(s.spInterm), "sp_entry": map[bool]string{false: "ParseResponse", true: "ParseXMLResponse"}[s.xmlEntry]}
+		"signed_request": fmt.Sprint(s.signed), "idp_method": s.idpMethod, "idp_signer": fmt.Sprint(s.idpSigner) + ":" + s.idpSignerKind, "outstanding_ids": s.idsShape, "idp_initiated": fmt.Sprint(s.initiated), "cert_text_layout": s.certWS, "sp_intermediates": fmt.Sprint(s.spInterm), "sp_entry": map[bool]string{false: "ParseResponse", true: "ParseXMLResponse"}[s.xmlEntry],
+		"idp_intermediates": fmt.Sprint(s.idpInterm), "max_issue_delay": s.effDelay().String(), "sp_clock_after_issue_instant": s.spLate.String()}
 }
+
+func (s c07Setup) effDelay() time.Duration {
+	if s.delay != 0 {
+		return s.delay
+	}
+	return 90 * time.Second
+}
+
+// stand-ins for the IdP's intermediate certificates
+var c07Intermediates = []string{"rsa_3072", "rsa_4096"}
 
 func xmlReparse(ed *saml.EntityDescriptor) (*saml.EntityDescriptor, error) {
 	buf, err := xml.MarshalIndent(ed, "", "  ")
@@ -125,6 +139,7 @@ func runPipelineOn(pw *pipeWorld, setup c07Setup, sess mSession, now time.Time, 
 		}
 	}()
 	cfg := mCfg{SSOURL: "https://idp.example.com/saml/sso", Entity: "https://idp.example.com/saml/metadata", Delay: 90 * time.Second, Skew: 180 * time.Second, Key: 1, Method: setup.idpMethod}
+	cfg.Delay = setup.effDelay()
 	if setup.idpKey != 0 {
 		cfg.Key = setup.idpKey
 	}
@@ -145,6 +160,10 @@ func runPipelineOn(pw *pipeWorld, setup c07Setup, sess mSession, now time.Time, 
 			configureIDP(idp, cfg, sess.toSAML())
 		} else {
 			idp = newIDP(cfg, nil, sess.toSAML())
+		}
+		idp.Intermediates = nil
+		for _, n := range c07Intermediates[:setup.idpInterm] {
+			idp.Intermediates = append(idp.Intermediates, fix.Cert(n))
 		}
 		idpMD, err := xmlReparse(idp.Metadata())
 		if err != nil {
@@ -277,6 +296,7 @@ func runPipelineOn(pw *pipeWorld, setup c07Setup, sess mSession, now time.Time, 
 			res.stage, res.detail = "sp-form", err.Error()
 			return
 		}
+		saml.TimeNow = func() time.Time { return now.Add(setup.spLate) } // the SP's clock (restored by withGlobals)
 		var a *saml.Assertion
 		if setup.xmlEntry {
 			raw, derr := base64.StdEncoding.DecodeString(pr.PostForm.Get("SAMLResponse"))
@@ -388,6 +408,13 @@ func genSetup(r *rand.Rand) c07Setup {
 		s.certWS = pick(r, c07Layouts)
 	}
 	s.spInterm, s.xmlEntry = r.Intn(5) == 0, r.Intn(3) == 0
+	if r.Intn(4) == 0 {
+		s.idpInterm = 1 + r.Intn(2)
+	}
+	if r.Intn(5) == 0 { // the SP reads the response some time later, up to exactly MaxIssueDelay
+		s.delay = pick(r, []time.Duration{0, 0, time.Second, 5 * time.Minute})
+		s.spLate = s.effDelay() - pick(r, []time.Duration{0, 0, time.Millisecond, time.Second, s.effDelay() / 2})
+	}
 	s.idsShape = pick(r, []string{"single", "single", "first-of-3", "middle-of-3", "last-of-3", "first-of-2", "last-of-2", "twice", "first-then-prefix"})
 	if s.idpSigner {
 		s.idpSignerKind = pick(r, []string{"rsa", "opaque-rsa", "opaque-rsa", "ecdsa"})
@@ -461,8 +488,12 @@ func c07Histories(c *Ctx, g *Group) {
 		step(pw, s, "idp-credentials-rotated", "Signer (key 2) set in place")
 		s.idpSignerKind = "ecdsa"
 		step(pw, s, "idp-credentials-rotated", "ECDSA Signer set in place")
+		s.idpInterm = 2
+		step(pw, s, "idp-credentials-rotated", "two Intermediates set in place")
 		s.idpSigner, s.idpSignerKind, s.idpKey, s.idpMethod = false, "", 1, ""
-		step(pw, s, "idp-credentials-rotated", "back to Key 1")
+		step(pw, s, "idp-credentials-rotated", "back to Key 1, Intermediates kept")
+		s.idpInterm = 0
+		step(pw, s, "idp-credentials-rotated", "Intermediates removed")
 		// (2) one ServiceProvider value alive across a refresh of the IdP's metadata, and a struct copy for another IdP
 		pw = &pipeWorld{sp: &saml.ServiceProvider{}}
 		s = base
@@ -489,6 +520,7 @@ func c07Pipeline(c *Ctx) {
 		gs = append(gs, c.Group(fmt.Sprintf("pipe%d", i), []string{"IdPModel"}, "c07case", "check_c07"))
 	}
 	gr := c.Group("reg", []string{"IdPModel"}, "c07rcase", "check_c07r")
+	glate := c.Group("late", nil, "bool", "check_bools")
 	now := c05Nows[0]
 	n := 260
 	if c.Thorough() {
@@ -524,6 +556,20 @@ func c07Pipeline(c *Ctx) {
 			vals := [][]mAttrValue{{{Type: "xs:string", Value: "text"}}, {{Type: "", NameID: nid}}, {{Type: "xs:string", Value: "primary:", NameID: nid}}, {{Type: "xs:string"}}}[i%4]
 			sess = mSession{Create: now, NameID: "alice", Custom: []mAttribute{{Friendly: "tid", Name: "urn:oid:1.3.6.1.4.1.5923.1.1.1.10", Format: "urn:oasis:names:tc:SAML:2.0:attrname-format:uri", Values: vals}}}
 			cls = "attribute-value-forms"
+		case i >= 66 && i < 78: // idp.Intermediates with 1, 2 certificates x Key / opaque Signer / ECDSA Signer x plaintext / encrypted
+			j := i - 66
+			setup = c07Setup{entityIDSet: i%2 == 0, spKey: "rsa_b", cert: j%2 == 1, binding: "post", idsShape: "single", idpInterm: 1 + (j/2)%2}
+			switch j / 4 {
+			case 1:
+				setup.idpSigner, setup.idpSignerKind = true, "opaque-rsa"
+			case 2:
+				setup.idpSigner, setup.idpSignerKind = true, "ecdsa"
+			}
+		case i >= 78 && i < 90: // the SP reads the response exactly MaxIssueDelay after its IssueInstant, 1 ms earlier, 1 ms later
+			j := i - 78
+			setup = c07Setup{entityIDSet: i%2 == 0, spKey: "rsa_c", cert: j >= 6, binding: "redirect", idsShape: "single"}
+			setup.delay = []time.Duration{0, 5 * time.Minute}[(j/3)%2]
+			setup.spLate = setup.effDelay() + []time.Duration{-time.Millisecond, 0, time.Millisecond}[j%3]
 		case i >= 24 && i < 30: // "]]>" in each string that travels as an XML attribute (known finding K4)
 			sess = mSession{Create: now, NameID: "alice", UserName: "u"}
 			at := mAttribute{Friendly: "f", Name: "n", Format: "urn:x", Values: []mAttrValue{{Type: "xs:string", Value: "v]]>"}}}
@@ -574,6 +620,13 @@ func c07Pipeline(c *Ctx) {
 			specOK = Bptr(false)
 		}
 		c.Count(fmt.Sprintf("encrypted/%v", res.encrypted))
+		if setup.spLate > setup.effDelay() { // older than MaxIssueDelay: the SP must refuse (harness verdict)
+			ok := !res.accepted && res.stage == ""
+			c.Count(fmt.Sprintf("late-response-refused/%v", ok))
+			c.Add(glate, &Case{Key: key, Input: map[string]any{"setup": key, "session": sess}, Obs: map[string]any{"accepted": res.accepted, "stopped_at": res.stage, "detail": res.detail},
+				Term: emitBool(ok), Dedup: fmt.Sprint(c.N)})
+			continue
+		}
 		c.Add(gs[i%len(gs)], &Case{
 			Key:   key,
 			Input: map[string]any{"setup": key, "session": sess, "relay_state": relay},
